@@ -312,6 +312,28 @@ def _arg_position(call: ast.Call, var: str) -> T.Optional[T.Union[int, str]]:
     return None
 
 
+def bind_call(call: ast.Call, fn: T.Union[ast.FunctionDef, ast.AsyncFunctionDef], implicit_first: bool = True) -> T.Optional[T.Dict[str, ast.AST]]:
+    """Arguments of `call` bound to the parameters of `fn` by signature (positional index or keyword name).
+    `implicit_first`: the call does not pass the first parameter (self/cls).  Keys '*' / '**' mark star arguments: a parameter
+    that is not bound explicitly may then be bound by them (callers treat that as unknown)."""
+    a = fn.args
+    names = [x.arg for x in a.posonlyargs + a.args]
+    if implicit_first and names:
+        names = names[1:]
+    out: T.Dict[str, ast.AST] = {}
+    for n, v in zip(names, call.args):
+        if isinstance(v, ast.Starred):
+            out['*'] = v          # positions from here on are unknown
+            break
+        out[n] = v
+    for k in call.keywords:
+        if k.arg is None:
+            out['**'] = k.value   # may bind any parameter not bound explicitly
+        else:
+            out[k.arg] = k.value
+    return out
+
+
 class Registrar:
     """Decides whether a CFG node hands a variable to one of the registering methods, directly
     (`self.add_build(v)`) or through a helper of the same class that registers that parameter on all its paths."""
@@ -373,7 +395,8 @@ def pairing(info: FnInfo, call: ast.Call, reg: Registrar) -> Pairing:
         if isinstance(st, ast.Return) and st.value is call:
             results.append(Pairing('returned', 'returned to the caller directly', None))
             continue
-        if isinstance(st, ast.Expr) and isinstance(st.value, ast.Call) and call_name(st.value) in reg.direct and st.value.args and st.value.args[0] is call:
+        if isinstance(st, ast.Expr) and isinstance(st.value, ast.Call) and call_name(st.value) in reg.direct and \
+                ((st.value.args and st.value.args[0] is call) or any(k.value is call for k in st.value.keywords)):
             results.append(Pairing('direct', 'constructed as the argument of the registering call', None))
             continue
         if isinstance(st, ast.Expr) and st.value is call:
@@ -579,13 +602,25 @@ class SymEval:
             f = e.func
             if isinstance(f, ast.Attribute) and f.attr == 'format' and isinstance(f.value, ast.Constant) and isinstance(f.value.value, str):
                 return self._format(f.value.value, e, fr, at, depth, busy)
+            # a constant lookup table read with .get(key[, default]): the values (and the default) are the alternatives
+            if isinstance(f, ast.Attribute) and f.attr == 'get' and 1 <= len(e.args) <= 2 and not e.keywords:
+                vals = self._table_values(f.value, fr, at)
+                if vals is not None:
+                    if len(e.args) < 2:
+                        raise Undecided(f'rule-name expression `{short(e, 60)}`: table lookup without a default may give None')
+                    return vals | self.shapes(e.args[1], fr, at, depth, busy)
             cn = call_name(e)
-            if cn and cn.count('.') == 1 and cn.split('.')[0] in ('self', 'cls', self.cls):
+            if cn and cn.count('.') == 1 and cn.split('.')[0] in ('self', 'cls', self.cls) and \
+                    (self.mod.has_func(f'{self.cls}.{cn.split(".")[1]}') or self.repo.find_method(self.mod, self.mod.cls(self.cls), cn.split('.')[1]) is not None):
                 return self._method(cn.split('.')[1], e, fr, at, depth, busy)
             r = _role(e)
             if r is not None:
                 return {(Hole(r),)}
             raise Undecided(f'rule-name expression `{short(e, 60)}`: unknown call')
+        if isinstance(e, ast.Subscript):
+            vals = self._table_values(e.value, fr, at)
+            if vals is not None:
+                return vals
         if isinstance(e, ast.Attribute):
             r = _role(e)
             if r is not None and not (isinstance(e.value, ast.Name) and e.value.id in ('self', 'cls')):
@@ -594,6 +629,32 @@ class SymEval:
         if isinstance(e, ast.Name):
             return self._name(e.id, fr, at, depth, busy)
         raise Undecided(f'rule-name expression `{short(e, 60)}` is outside the string subset')
+
+    def _table_values(self, recv: ast.AST, fr: Frame, at: T.Optional[Node]) -> T.Optional[T.Set[Shape]]:
+        """If `recv` folds to a constant mapping/sequence of strings (module- or class-level table, or a local dict display): its values."""
+        from ..consteval import fold_expr, fold_const
+        e = recv
+        if at is not None and isinstance(e, ast.Name) and (e.id in fr.info.params or fr.info.defs().get(e.id)):
+            e = inline_locals(fr.info, e, at)
+            if isinstance(e, ast.Name):
+                return None          # a parameter / a local with several definitions: not a constant table
+        try:
+            c = attr_chain(e)
+            if c and c.count('.') == 1 and c.split('.')[0] in ('self', 'cls', self.cls):
+                v = fold_const(self.repo, self.mod, c.split('.')[1], self.cls)
+            else:
+                v = fold_expr(self.repo, self.mod, e)
+        except Exception:
+            return None
+        if isinstance(v, dict):
+            items = list(v.values())
+        elif isinstance(v, (list, tuple)):
+            items = list(v)
+        else:
+            return None
+        if not items or not all(isinstance(x, str) for x in items):
+            return None
+        return {((x,) if x else ()) for x in items}
 
     def _format(self, tmpl: str, call: ast.Call, fr: Frame, at: T.Optional[Node], depth: int, busy: T.FrozenSet[T.Tuple[str, str, int]]) -> T.Set[Shape]:
         if call.keywords or any(isinstance(a, ast.Starred) for a in call.args):
